@@ -39,6 +39,7 @@ func replayHist(line string) []Case {
 	f := fields(line)
 	h := &hist{cfg: f["cfg"], ext: map[string][]string{}}
 	fmt.Sscan(f["bias"], &h.bias)
+	h.pad = f["pad"] == "1"
 	for _, t := range strings.Split(f["tables"], ";") {
 		if t == "" {
 			continue
